@@ -21,6 +21,20 @@ const FREE_LIST_END: u32 = (FREE_BIT - 1) | FREE_BIT;
 #[derive(Clone, Copy, PartialEq, Eq, PartialOrd, Ord)]
 pub(crate) struct SlotIndex(u32);
 
+#[cfg(gecs_verif)]
+impl SlotIndex {
+    pub(crate) fn verif_raw(&self) -> u32 {
+        self.0
+    }
+}
+
+#[cfg(gecs_verif)]
+impl Slot {
+    pub(crate) fn verif_set_version(&mut self, version: u32) {
+        self.version = SlotVersion::new(std::num::NonZeroU32::new(version).unwrap());
+    }
+}
+
 impl SlotIndex {
     /// Assigns this index to some non-free data index.
     /// This may be a reassignment of an already live slot.
